@@ -69,7 +69,8 @@ var hostFuncs = map[string]interface{}{
 	"go/constant.MakeFromLiteral": func(lit string, tok token.Token, zero uint) constant.Value {
 		return constant.MakeFromLiteral(lit, tok, zero)
 	},
-	"regexp.MustCompile": regexp.MustCompile,
+	"regexp.MustCompile":  regexp.MustCompile,
+	"go/token.NewFileSet": token.NewFileSet,
 }
 
 var hostGlobals = map[string]interface{}{
@@ -482,11 +483,7 @@ func isHostRecv(t types.Type) bool {
 	if pt, ok := t.(*types.Pointer); ok {
 		t = pt.Elem()
 	}
-	n, ok := t.(*types.Named)
-	if !ok || n.Obj().Pkg() == nil {
-		return false
-	}
-	return hostPkgs[n.Obj().Pkg().Path()]
+	return isHostNamed(t)
 }
 
 // hostCall performs a native call of a world function or method.
